@@ -244,14 +244,21 @@ with add_ancestors (fuel : nat) (h : hv) (s : nat) (upto : option nat) (e : eset
 
 Definition spec_fuel := 2 * n + 4.
 
+(* the body of computeEntrySet's loop, for one transition *)
+Definition entry_step (h : hv) (e : eset) (t : ftrans) : eset :=
+  let e1 := fold_left (fun e s => add_descendants spec_fuel h s e) (ft_targets t) e in
+  let anc := transition_domain h t in
+  fold_left (fun e s => add_ancestors spec_fuel h s anc e) (eff_targets n h (ft_targets t)) e1.
+
 Definition compute_entry_set (h : hv) (ts : list nat) : eset :=
-  fold_left
-    (fun e ti =>
-       let t := tr c ti in
-       let e1 := fold_left (fun e s => add_descendants spec_fuel h s e) (ft_targets t) e in
-       let anc := transition_domain h t in
-       fold_left (fun e s => add_ancestors spec_fuel h s anc e) (eff_targets n h (ft_targets t)) e1)
-    ts {| e_enter := []; e_default := []; e_histcontent := [] |}.
+  fold_left (fun e ti => entry_step h e (tr c ti)) ts {| e_enter := []; e_default := []; e_histcontent := [] |}.
+
+(* doc.initial.transition: the transition of the document's 'initial' attribute (or default); its source is the
+   <scxml> element, it has no event, condition or content *)
+Definition init_trans : ftrans :=
+  {| ft_vid := 0; ft_source := 0; ft_targets := fst (initial_of 0); ft_targetless := false; ft_internal := false;
+     ft_spontaneous := true; ft_history := false; ft_initial := true; ft_event := []; ft_cond := None; ft_body := [];
+     ft_has_body := false |}.
 
 (* isInFinalState *)
 Fixpoint in_final_state (fuel : nat) (cfg : list nat) (s : nat) : bool :=
@@ -475,9 +482,9 @@ Definition spec_run (evs : list bytes) (fuel : nat) : list tok * store :=
      data of <scxml> itself) -- both are fs_data of state 0 in the flat chart *)
   let x1 := fold_left (fun x d => init_data d x) (fs_data (st c 0)) x0 in
   let s0 := {| s_cfg := []; s_hv := []; s_running := true; s_entered := [0] |} in
-  (* enterStates([doc.initial.transition]) *)
-  let e := fold_left (fun e s => add_ancestors spec_fuel [] s (Some 0) (add_descendants spec_fuel [] s e))
-                     (fst (initial_of 0)) {| e_enter := []; e_default := []; e_histcontent := [] |} in
+  (* enterStates([doc.initial.transition]): computeEntrySet for the one transition -- the descendants of ALL its
+     targets first, then the ancestors of its effective targets up to the transition's domain *)
+  let e := entry_step [] {| e_enter := []; e_default := []; e_histcontent := [] |} init_trans in
   let '(s1, x2) := enter_states_e e s0 (emit (TDiag (diag [] [] None x1)) (emit TMsB x1)) in
   let x3 := emit (spec_cfg_tok s1) (emit TMsE x2) in
   let '(s2, x4) := spec_loop fuel s1 x3 evs in
